@@ -100,20 +100,29 @@ def pmap(fn, items, nproc=None, chunksize=1, order_seed=None):
         for it in items:
             tag, res = _call((fn, it))
             if tag == 'err':
-                raise MachineryError(res)
+                ERRORS.append(res)
+                continue
             yield res
         return
     ctx = mp.get_context('fork')
     with ctx.Pool(nproc) as pool:
         for tag, res in pool.imap_unordered(_call, [(fn, it) for it in items], chunksize):
             if tag == 'err':
-                pool.terminate()
-                raise MachineryError(res)
+                # keep going: violations found by the other work items must still be reported; the
+                # error itself makes the run exit 2 unless a violation is reported (see finish())
+                ERRORS.append(res)
+                if len(ERRORS) > 20:
+                    pool.terminate()
+                    raise MachineryError(res)
+                continue
             yield res
 
 
 class MachineryError(Exception):
     pass
+
+
+ERRORS = []
 
 
 def write_evidence(pid, tier, coverage, wall, nviol, assumptions, level='model_checking'):
@@ -184,6 +193,11 @@ def finish(pid, tier, stats, t0, rule, assumptions, exhaustive=True, extra_cov=N
           f'wall={wall:.1f}s counters={dict(sorted(stats.extra.items()))}')
     for sig, (k, v) in seen_known.items():
         print(f'KNOWN-FINDING: property={pid} {k.get("what", sig)}')
+    if ERRORS and not new:
+        print('machinery error (no violation reported):\n' + ERRORS[0])
+        return 2
+    if ERRORS:
+        print(f'note: {len(ERRORS)} work item(s) ended with a machinery error, first one:\n' + ERRORS[0][-1500:])
     if stats.executions and len(stats.sigs) < min_sigs:
         print(f'machinery error: vacuous exploration ({len(stats.sigs)} distinct signatures)')
         return 2
